@@ -136,11 +136,12 @@ Fixpoint get_dset (l : list (path * dset)) (p : path) : option dset :=
   match l with [] => None | (p', d) :: t => if path_eqb p p' then Some d else get_dset t p end.
 Definition has_group (f : h5) (p : path) : bool := existsb (path_eqb p) (groups f).
 (* datasets that are direct children of group g, with their last path component *)
-Definition children (f : h5) (g : path) : list (bytes * dset) :=
+Definition children_of (l : list (path * dset)) (g : path) : list (bytes * dset) :=
   flat_map (fun pd => match rev (fst pd) with
                       | name :: rg => if path_eqb (rev rg) g then [(name, snd pd)] else []
                       | [] => []
-                      end) (dsets f).
+                      end) l.
+Definition children (f : h5) (g : path) : list (bytes * dset) := children_of (dsets f) g.
 
 Definition dnum (k : dkind) (l : list Z) : dset := mkD k [length l] l [] [].
 Definition dstr1 (l : list bytes) : dset := mkD KVStr [length l] [] l [].
@@ -319,16 +320,14 @@ Definition opt_text (o : option str) (dflt : str) : str :=
    4623: nnz eliminates the stored zeros of the held matrix in place and counts what is left;
    4624-4634: the eight attributes; 4647-4650: per axis the held matrix is converted with
    asformat and kept, so the sample copy is converted from the observation copy. *)
-Definition to_hdf5 (st : state) (genby date : str) : result h5 :=
+(* the file, given the formatted metadata of both axes *)
+Definition assemble (st : state) (genby date : str)
+           (omd ogmd smd sgmd : list (bytes * dset)) : h5 :=
   let r0 := eliminate_zeros (st_cs st) in
   let nnz := length (data r0) in
   let r_obs := asformat (st_fmt st) CSR r0 in
   let r_samp := asformat CSR CSC r_obs in
-  omd <- format_md (st_omd st) ;;
-  ogmd <- format_gmd (st_ogmd st) ;;
-  smd <- format_md (st_smd st) ;;
-  sgmd <- format_gmd (st_sgmd st) ;;
-  ROk (mkH
+  mkH
     [ (b_id, AStr (utf8_encode (opt_text (st_id st) s_no_table_id)));
       (b_type, AStr (utf8_encode (opt_text (st_type st) [])));
       (b_format_url, AStr (utf8_encode s_url));
@@ -341,7 +340,14 @@ Definition to_hdf5 (st : state) (genby date : str) : result h5 :=
     (under [b_observation; b_metadata] omd ++ under [b_observation; b_group_metadata] ogmd
      ++ matrix_dsets b_observation r_obs nnz ++ ids_dset b_observation (st_oids st)
      ++ under [b_sample; b_metadata] smd ++ under [b_sample; b_group_metadata] sgmd
-     ++ matrix_dsets b_sample r_samp nnz ++ ids_dset b_sample (st_sids st))).
+     ++ matrix_dsets b_sample r_samp nnz ++ ids_dset b_sample (st_sids st)).
+
+Definition to_hdf5 (st : state) (genby date : str) : result h5 :=
+  omd <- format_md (st_omd st) ;;
+  ogmd <- format_gmd (st_ogmd st) ;;
+  smd <- format_md (st_smd st) ;;
+  sgmd <- format_gmd (st_sgmd st) ;;
+  ROk (assemble st genby date omd ogmd smd sgmd).
 
 (* ------------------------------------------------------------------ reader *)
 Definition attr_text (f : h5) (k : bytes) : result str :=
